@@ -104,7 +104,8 @@ THEOREMS = [
      "(exists status : N, pc_fs c (error_path (pc_host c) status) = Some b) | _ => True end"),
     ("def_strip_internal",
      "forall c : pcfg, pc_handlers (strip_internal c) = pc_handlers c /\\ pc_fs (strip_internal c) = pc_fs c /\\ "
-     "pc_tree (strip_internal c) = pc_tree c /\\ pc_cache (strip_internal c) = pc_cache c /\\ pc_fcache (strip_internal c) = pc_fcache c /\\ "
+     "pc_tree (strip_internal c) = pc_tree c /\\ pc_host_header (strip_internal c) = pc_host_header c /\\ "
+     "pc_cache (strip_internal c) = pc_cache c /\\ pc_fcache (strip_internal c) = pc_fcache c /\\ "
      "pc_default_ext (strip_internal c) = pc_default_ext c /\\ "
      "h_prepare_single (pc_host (strip_internal c)) = filter (fun k => negb (has_dot_slash_b k)) (h_prepare_single (pc_host c)) /\\ "
      "h_path (pc_host (strip_internal c)) = h_path (pc_host c) /\\ h_public (pc_host (strip_internal c)) = h_public (pc_host c) /\\ "
@@ -133,8 +134,9 @@ RULE = ("(a) direct calls of kvarn_utils::parse::sanitize_request (on an http::R
         "sub/index.html, secret.txt, 'index.', percent-encoded and doubly percent-encoded spellings, empty, with a trailing '/'}, "
         "disable_fs, response cache on/off, file cache on/off, six path-bound Prepare handlers (server cache preference None / "
         "QueryMatters / Full) and a predicate-bound Prepare whose predicate logs that it was consulted; histories of 10-30 requests "
-        "(GET/HEAD/POST/OPTIONS, no / same-site / foreign Origin header, with or without access-control-request-method, targets in every "
-        "form, with and without query) and of steps that copy a response-cache entry to an arbitrary key go through the public "
+        "(GET/HEAD/POST/OPTIONS and rarer methods, no / same-site / foreign Origin header, with or without access-control-request-method, "
+        "targets in every form, with and without query; in a part of the scenarios the client's Host header carries a piece of the "
+        "path: 'localhost/..', 'localhost/%2e%2e', 'localhost?', ... — the fixture host is the collection's default host) and of steps that copy a response-cache entry to an arbitrary key go through the public "
         "kvarn::handle_cache; per request the status, the content-decoded body (kvarn's generated error page canonicalised by class: it IS "
         "what kvarn_utils::hardcoded_error_body generates for the status), the Prepare log AND the list of files and directories the "
         "server process opened below the run directory (inotify IN_OPEN on every directory of the fixture) are compared with "
@@ -377,14 +379,14 @@ def fixture_files(public, errors=b"errors", err_pages=True):
 _FIX = {}
 
 
-def pipe_cfg(default_ext, cache, fcache, public, opts=BENIGN_OPTS[0], err_pages=True, nofs=False):
-    key = (default_ext, cache, fcache, public, opts, err_pages, nofs)
+def pipe_cfg(default_ext, cache, fcache, public, opts=BENIGN_OPTS[0], err_pages=True, nofs=False, hh=b"localhost"):
+    key = (default_ext, cache, fcache, public, opts, err_pages, nofs, hh)
     if key not in _FIX:
         errors, ext, folder = opts
         _FIX[key] = xl(xbool(default_ext), xbool(cache), xbool(fcache), xb(public),
                        xlist([xl(xb(a), xb(b)) for a, b in fixture_files(public, errors, err_pages)]),
                        xlist([xl(xb(a), xb(b), xn(s)) for a, b, s in HANDLERS]),
-                       xl(xb(errors), xb(ext), xb(folder), xbool(nofs)))
+                       xl(xb(errors), xb(ext), xb(folder), xbool(nofs), xb(hh)))
     return _FIX[key]
 
 
@@ -470,9 +472,17 @@ def pipe_target(rng):
     return t
 
 
-def rand_cfgkey(rng, benign=True):
+# what a client may write into the Host header (HTTP/1.1): kvarn's readers parse scheme "://" Host-header target as ONE text, so a '/'
+# in the Host header starts the path there
+HOST_HEADERS = [b"localhost/..", b"localhost/%2e%2e", b"localhost/a", b"localhost?", b"localhost#", b"localhost:80", b"localhost/.", b"localhost//",
+                b"localhost/../..", b"other.example", b"localhost/sub", b"localhost/%2e", b"localhost/..%2f..", b"u@localhost", b"localhost/a/..",
+                b"localhost/%252e%252e", b"[::1]", b"localhost/q?x=1&y=", b"localhost/../errors"]
+
+
+def rand_cfgkey(rng, benign=True, hosts=True):
     opts = rng.choice(BENIGN_OPTS) if benign else rng.choice(NON_BENIGN_OPTS)
-    return (rng.random() < 0.65, rng.random() < 0.6, rng.random() < 0.5, rng.choice(PUBLIC_DIRS), opts, rng.random() < 0.6, rng.random() < 0.04)
+    hh = rng.choice(HOST_HEADERS) if hosts and rng.random() < 0.12 else b"localhost"
+    return (rng.random() < 0.65, rng.random() < 0.6, rng.random() < 0.5, rng.choice(PUBLIC_DIRS), opts, rng.random() < 0.6, rng.random() < 0.04, hh)
 
 
 def history(rng, n):
@@ -565,7 +575,7 @@ EX_EXPECTED = "(L " + " ".join([
 
 def pinned_case():
     cfg = xl(xbool(True), xbool(True), xbool(True), xb(b"public"), xlist([xl(xb(a), xb(b)) for a, b in EX_FILES]), xlist([]),
-             xl(xb(b"errors"), xb(b"html"), xb(b"index.html"), xbool(False)))
+             xl(xb(b"errors"), xb(b"html"), xb(b"index.html"), xbool(False), xb(b"localhost")))
     ops = [xl(xn(1), xb(t), xb(k)) if m is ALIAS else xl(xb(m), xb(t), xn(k)) for m, t, k in EX_HISTORY]
     return Case("pathsanpipe.run", xl(cfg, xlist(ops)), "pathsanpipe.spec", {"kind": "pipe-kernel-pinned", "requests": 9, "pinned": EX_EXPECTED})
 
@@ -646,6 +656,14 @@ def pipe_cases(rng, tier):
         cases.append(pipe_case((de, True, rng.random() < 0.5, rng.choice(PUBLIC_DIRS), D0, True, False), poisoned_history(rng, de), "wire-poisoned-cache", "pathsanpipe.wire"))
         cases.append(pipe_case(rand_cfgkey(rng), [(rng.choice(METHODS) if rng.random() < 0.3 else b"GET", other_form_target(rng), rng.choice([0, 0, 0, 2, 3]))
                                                  for _ in range(25)], "wire-target-forms", "pathsanpipe.wire"))
+    # 10b. a part of the path in the Host header
+    hh_targets = [b"/secret.txt", b"/", b"/index.html", b"/../secret.txt", b"/..", b"/a/b.txt", b"/%2e%2e/secret.txt", b"secret.txt", b"/q?x=1", b"/errors/404.html",
+                  b"/404.html", b"/nonexistent", b"*", b"?x"]
+    for hh in HOST_HEADERS:
+        for comp in ("pathsanpipe.run", "pathsanpipe.wire"):
+            de = rng.random() < 0.6
+            cases.append(pipe_case((de, True, True, rng.choice(PUBLIC_DIRS), D0, True, False, hh),
+                                   [(rng.choice([b"GET", b"GET", b"HEAD", b"OPTIONS"]), t, rng.choice([0, 0, 1, 2, 4])) for t in hh_targets], "host-header", comp))
     # 11. and over TLS + HTTP/2 (':path' as the h2 client sends it: origin form incl. double encodings, queries)
     for de in (True, False):
         for ch in chunks([t for t in directed if t.startswith(b"/")], 40):
@@ -720,13 +738,14 @@ def _pipe_rows(c, i):
 def _cfg(c):
     cfg = c.x[1][0][1]
     o = cfg[6][1]
-    return {"de": cfg[0][1], "ca": cfg[1][1], "fc": cfg[2][1], "pub": cfg[3][1], "errors": o[0][1], "ext": o[1][1], "folder": o[2][1], "nofs": o[3][1]}
+    return {"de": cfg[0][1], "ca": cfg[1][1], "fc": cfg[2][1], "pub": cfg[3][1], "errors": o[0][1], "ext": o[1][1], "folder": o[2][1], "nofs": o[3][1],
+            "hh": o[4][1]}
 
 
 def _req_text(c, idx, r):
     g = _cfg(c)
-    return "%s request #%d %s %r origin_kind=%d (default_ext=%d cache=%d fcache=%d public_dir=%r errors_dir=%r extension_default=%r folder_default=%r disable_fs=%d)" % (
-        c.comp, idx, r[1][0][1].decode(), r[1][1][1], r[1][2][1], g["de"], g["ca"], g["fc"], g["pub"], g["errors"], g["ext"], g["folder"], g["nofs"])
+    return "%s request #%d %s %r origin_kind=%d (default_ext=%d cache=%d fcache=%d public_dir=%r errors_dir=%r extension_default=%r folder_default=%r disable_fs=%d host_header=%r)" % (
+        c.comp, idx, r[1][0][1].decode(), r[1][1][1], r[1][2][1], g["de"], g["ca"], g["fc"], g["pub"], g["errors"], g["ext"], g["folder"], g["nofs"], g["hh"])
 
 
 _FILES = {}
@@ -820,8 +839,13 @@ def extra_oracle(c, i):
         m, k = r[1][0][1], r[1][2][1]
         # Cors::is_part_of_origin compares the AUTHORITY of the URI ("localhost" + what the target has before its first '/', '?', '#')
         # with the Origin header's: with such a target the site's own Origin is a foreign one
-        if c.comp in ("pathsanpipe.run", "pathsanpipe.wire") and r[1][1][1][:1] not in (b"/", b"?", b"#"):
-            k = {1: 2, 4: 3}.get(k, k)
+        if c.comp in ("pathsanpipe.run", "pathsanpipe.wire"):
+            import re
+            auth = re.split(rb"[/?#]", g["hh"] + r[1][1][1], maxsplit=1)[0]
+            if k in (1, 4) and auth != b"localhost":
+                k = {1: 2, 4: 3}[k]
+            elif k in (2, 3) and auth == b"other.example":      # the harness's "foreign" Origin is then the request's own
+                k = {2: 1, 3: 4}[k]
         may_override = default_ext and (k in (2, 3) or (k == 4 and m == b"OPTIONS"))
         if not may_override and (status in INTERNAL_STATUS or body == CORS_DENIED):
             return "an internal /./cors_* handler answered a request no CORS Prime extension rerouted: " + _req_text(c, idx, r) + \
